@@ -355,9 +355,13 @@ def run(ctx, report):
     double_eval_rule(R7, ea, methods, eh, efe)
 
     # ---------------------------------------------------------------- D8 the pieces of an overlapping read are merged at their bit positions
-    R8 = report.rule('C07.D8', 'adjacent constant / slice pieces of an assembled read are merged at their bit positions (merge_sliceto_slice)', floor=7)
-    from .c05 import merge_rule
-    merge_rule(ctx, R8)
+    R8 = report.rule('C07.D8', 'adjacent constant / slice pieces of an assembled read are merged at their bit positions (merge_sliceto_slice evaluated on the concatenation family of C05.D3)', floor=2)
+    from .. import simpeval
+    simpeval.emit(R8, ctx, lambda l: l in ('compose', 'slice:Compose'), ('value', 'width', 'ill-typed', 'result', 'raises'))
+
+    R12 = report.rule('C07.D12', 'cell addresses have one simplified form: base + 0, 0 + base and base + c + (-c) simplify to the base itself for sums of one, two and three terms '
+                      '(memory cells are keyed by the simplified address; the overlap probes compute neighbours as address + constant)', floor=10)
+    simpeval.emit_groups(R12, ctx, 'neutral', 'two spellings of one address')
 
     R9 = report.rule('C07.D9', 'a partial register write (constant pieces and one conditional piece) is folded to the concatenation of its pieces (eval_ExprCompose evaluated)', floor=5)
     from .c06 import compose_fold_rule
